@@ -38,7 +38,8 @@ if [ $rc -ne 0 ] && [ $rc -ne 1 ] && grep -qE '^(fatal error:|panic:)' $ALT/$ID.
     rc=1
   fi
 fi
-if [ -x $BIN.386 ]; then
+case "$ID" in C05|C07|C08|C20) RUN386=1 ;; *) RUN386= ;; esac
+if [ -n "$RUN386" ] && [ -x $BIN.386 ]; then
   mkdir -p $ALT/386/evidence $ALT/386/out; cp known_findings.json $ALT/386/
   VERIF_ROOT=$ALT/386 timeout -s QUIT 1500 $BIN.386 $ID $TIER > $ALT/$ID.386.log 2>&1
   rc386=$?
